@@ -1339,6 +1339,15 @@ def gen_set16(rng):
     else:
         path = rng.choice(["/no/such/node", "nosuch.key"])
         must = True
+    if oper in ("value", "null", "format", "check-pass", "check-fail") \
+            and rng.random() < 0.25:
+        # the same change over every child of the node's parent: several
+        # matches (--check has to hold for all of them, not for the last)
+        up = gen_docs.render_path(segs[:-1], sep) if len(segs) > 1 else ""
+        if sep == "/":
+            path = (up if up != "/" else "") + "/*"
+        else:
+            path = up + ".*" if up else "*"
     opts = ["-g", path]
     if oper == "delete":
         opts.append("-D")
